@@ -24,6 +24,8 @@ ACTIONS = {
     'ok200body': (b'HTTP/1.1 200 OK\r\nContent-Length: 7\r\nContent-Type: text/plain\r\nX-Smtp-Reply: 250; message="2.6.0 queued"\r\n\r\nqueued\n', 250),
     'ok200chunked': (b'HTTP/1.1 200 OK\r\nTransfer-Encoding: chunked\r\nX-Smtp-Reply: 250; message="2.6.0 queued"\r\n\r\n3\r\nabc\r\n0\r\n\r\n', 250),
     'hdr450body': (b'HTTP/1.1 503 Service Unavailable\r\nContent-Length: 6\r\nX-Smtp-Reply: 450; message="4.2.0 later"\r\n\r\nlater\n', 450),
+    'redirect302': (b'HTTP/1.1 302 Found\r\nLocation: http://elsewhere.example/\r\nContent-Length: 0\r\n\r\n', 450),
+    'notmodified304': (b'HTTP/1.1 304 Not Modified\r\nContent-Length: 0\r\n\r\n', 450),
     'ok204plain': (b'HTTP/1.1 204 No Content\r\nContent-Length: 0\r\n\r\n', 250),
     'hdr550': (b'HTTP/1.1 400 Bad Request\r\nContent-Length: 0\r\nX-Smtp-Reply: 550; message="5.1.1 no such user"\r\n\r\n', 550),
     'hdr450': (b'HTTP/1.1 503 Service Unavailable\r\nContent-Length: 0\r\nX-Smtp-Reply: 450; message="4.2.0 later"\r\n\r\n', 450),
@@ -33,6 +35,8 @@ ACTIONS = {
     'plain500': (b'HTTP/1.1 500 Internal Server Error\r\nContent-Length: 0\r\n\r\n', 450),
     'plain503': (b'HTTP/1.1 503 Service Unavailable\r\nContent-Length: 0\r\n\r\n', 450),
     'badhdr': (b'HTTP/1.1 500 Oops\r\nContent-Length: 0\r\nX-Smtp-Reply: nonsense\r\n\r\n', 450),
+    # a complete status line and headers, then only part of the announced body, then silence
+    'okstallbody': (b'HTTP/1.1 200 OK\r\nContent-Length: 10\r\nX-Smtp-Reply: 250; message="2.6.0 queued"\r\n\r\nabc', 250),
     'close': ('close', 0),
     'garbage': (b'this is not http\r\n\r\n', 0),
     'stall': ('stall', 0),
@@ -127,6 +131,14 @@ class HttpRun(object):
                 out = raw.replace(b'message="', b'message="m%d ' % marker) if b'message="' in raw else raw
                 sock.sendall(out)
                 if raw.startswith(b'this'):
+                    break
+                if act == 'okstallbody':
+                    self.stalling += 1
+                    try:
+                        while sock.recv(4096):
+                            pass
+                    finally:
+                        self.stalling -= 1
                     break
         except Exception:  # noqa
             pass
